@@ -83,7 +83,7 @@ def iop_expected(kind, arg):
         return [max(arg)]
 
 
-def run(pid, opmix, focus_text, manifest_assumptions, extra=None, allowed=None, use_iops=True, oracle='spec', corpus_prefixes=None):
+def run(pid, opmix, focus_text, manifest_assumptions, extra=None, allowed=None, use_iops=True, oracle='spec', corpus_prefixes=None, unjudged=()):
     c = Check(pid)
     c.prove()
     if c.tier == 'thorough':
@@ -132,8 +132,20 @@ def run(pid, opmix, focus_text, manifest_assumptions, extra=None, allowed=None, 
     op_hist = {}
     finding_hits = {}
 
+    def mask(s, kinds):
+        # probe operations (unjudged): their own result belongs to another property's clauses; only what they may do to
+        # LATER operations is this property's business, so the result field is blanked on all three sides
+        if not unjudged:
+            return s
+        segs = s.split(' ; ')
+        for k, seg in enumerate(segs):
+            if k < len(kinds) and kinds[k] in unjudged and '|' in seg:
+                segs[k] = '*|' + seg.split('|', 1)[1]
+        return ' ; '.join(segs)
+
     def check_history(g, li, lm, line, valid=True):
-        per = parse_impl(li)
+        per = {ty: mask(body, g.kinds) for ty, body in parse_impl(li).items()}
+        lm = mask(lm, g.kinds)
         nontriv = any(k in ('SLICE',) for k in g.kinds) and any(k in ('SET', 'APPLY', 'APPLYSLICE', 'COPYFROM', 'SET1', 'APPLY1', 'UNROLLW', 'SETN', 'SCALE', 'ADDTO', 'APPLYFUNC') for k in g.kinds) if valid else False
         c.count(line, nontrivial=nontriv)
         for k in g.kinds:
@@ -146,7 +158,7 @@ def run(pid, opmix, focus_text, manifest_assumptions, extra=None, allowed=None, 
                 break
         if not valid or oracle != 'spec':
             return
-        exp = ' ; '.join(g.expected)
+        exp = mask(' ; '.join(g.expected), g.kinds)
         for ty in tys:
             d = first_diff(per[ty], exp)
             if d is None:
